@@ -149,11 +149,28 @@ def kind_class(kind):
     return kind[0] if kind[0] != 'lua' else 'lua:' + kind[1]
 
 
-def check_cart(d, kinds, res):
+PATH_SPELLINGS = ['rel-dir', 'dot', 'bare', 'dotdot', 'updown', 'abs-dotdot', 'double-slash']
+
+
+def spelled_path(d, how):
+    """(working directory, path argument) for the cart d/main.p8 named in another way."""
+    parent, base = os.path.dirname(d), os.path.basename(d)
+    return {'rel-dir': (parent, os.path.join(base, 'main.p8')),
+            'dot': (d, './main.p8'),
+            'bare': (d, 'main.p8'),
+            'dotdot': (os.path.join(d, 'sub'), '../main.p8'),
+            'updown': (parent, base + '/sub/../main.p8'),
+            'abs-dotdot': (None, d + '/sub/../main.p8'),
+            'double-slash': (None, d + '//main.p8')}[how]
+
+
+def check_cart(d, kinds, res, how=None):
     from pico8.game import file as p8file
     res.evaluations += 1
     lines = [line_text(k) for k in kinds]
     case = {'lines': [l for l in lines], 'kinds': [kind_class(k) for k in kinds]}
+    if how:
+        case['path_how'] = how
     if any(k[0] != 'plain' for k in kinds):
         res.nontriv(tuple(lines))
     path = os.path.join(d, 'main.p8')
@@ -168,11 +185,24 @@ def check_cart(d, kinds, res):
             break
         want += el
         png_whole = png_whole or pw
+    cwd0 = os.getcwd()
     try:
-        g = p8file.from_file(path)
+        arg = path
+        if how:
+            cwd, arg = spelled_path(d, how)
+            if cwd:
+                os.chdir(cwd)
+        g = p8file.from_file(arg)
         err = None
     except Exception as e:
         err = e
+    finally:
+        os.chdir(cwd0)
+    if how and err is not None and not fail:
+        res.violation('C20|load-raise|%s|path=%s' % (type(err).__name__, how),
+                      'loading the cart %r through the path spelling %r (%s) raised %r; through its absolute path it loads' % (
+                          lines, spelled_path(d, how)[1].replace(d, '<dir>'), how, err), case)
+        return
     if fail:
         if err is None:
             res.violation('C20|missing-target-accepted', 'cart %r loads although an include target does not exist' % lines, case)
@@ -290,9 +320,21 @@ def manytab_sequences(tier):
         yield (k, ('p8', 'inc2', 1))
 
 
+def path_sequences(tier):
+    """Every include kind alone (and between plain lines in the thorough tier): loaded through every path spelling."""
+    base, png = line_kinds()
+    plain = base[0]
+    for k in base + png:
+        if k[0] == 'plain':
+            continue
+        yield (k,)
+        if tier == 'thorough':
+            yield (plain, k, plain)
+
+
 def shards(tier, seed):
     n = 32 if tier == 'quick' else 128
-    return [('seqs', tier, k, n) for k in range(n)] + [('resave',)] + [('spelled', tier, k, 4) for k in range(4)] + [('manytabs', tier, 0, 1)]
+    return [('paths', tier, k, 4) for k in range(4)] + [('seqs', tier, k, n) for k in range(n)] + [('resave',)] + [('spelled', tier, k, 4) for k in range(4)] + [('manytabs', tier, 0, 1)]
 
 
 def resave_history(res):
@@ -339,6 +381,15 @@ def run_shard(item):
     kind_, tier, k, n = item
     d = setup_dir()
     try:
+        if kind_ == 'paths':
+            for i, seq in enumerate(path_sequences(tier)):
+                if i % n != k:
+                    continue
+                for how in PATH_SPELLINGS:
+                    check_cart(d, seq, res, how=how)
+            if k == 0:
+                res.sample({'paths': 'cart named as proj/main.p8, ./main.p8, main.p8, ../main.p8, proj/sub/../main.p8, ...'})
+            return res
         for i, seq in enumerate(spelled_sequences(tier) if kind_ == 'spelled' else manytab_sequences(tier) if kind_ == 'manytabs' else sequences(tier)):
             if i % n != k:
                 continue
@@ -359,6 +410,7 @@ def replay(case):
     base, png = line_kinds()
     allk = base + png
     allk = allk + [(f, 'inc12', n) for f in ('p8', 'png') for n in MANY_TAB_SELECTORS + [None]]
+    allk = allk + [('p8', 'inc2crlf', n) for n in (None, 0, 1, 2, 3, 4)]
     by_text = {line_text(k): k for k in allk}
     for k in allk:
         if k[0] != 'plain':
@@ -367,7 +419,7 @@ def replay(case):
     kinds = [by_text[l] for l in case['lines']]
     d = setup_dir()
     try:
-        check_cart(d, kinds, res)
+        check_cart(d, kinds, res, how=case.get('path_how'))
     finally:
         shutil.rmtree(d, ignore_errors=True)
     return [(s, v[0]) for s, v in res.violations.items()]
